@@ -4,6 +4,7 @@
  *
  *   table ops: R <path> <flags> <nattr> { <name> <val> }*  (init, add_attr.., add_resource)
  *              D <path>                                     (coap_delete_resource)
+ *              U | P                                        (unknown-resource / proxy-URI resource: never listed)
  *   wk        { R <path> <flags> <nattr> { <name> <val> }* }*  F <filter>  W all
  *   wk        { R ... }*                                        F <filter>  W list { <off> <len> }*
  *   lk <idx>  { R ... }*                                        F ~         W all | list ...
@@ -71,13 +72,58 @@ static coap_string_t *filter_of_tok(const char *t) {
   return f;
 }
 
+static void hnd_dummy(coap_resource_t *r, coap_session_t *s, const coap_pdu_t *req,
+                      const coap_string_t *q, coap_pdu_t *resp) {
+  (void)r; (void)s; (void)req; (void)q;
+  coap_pdu_set_code(resp, COAP_RESPONSE_CODE_CONTENT);
+}
+
 /* parse the table starting at vtok[i]; returns the index of the token after it */
 static int build_table(int i) {
   nres = 0;
   ctx = coap_new_context(NULL);
   if (!ctx) return -1;
-  while (i < vntok && (!strcmp(vtok[i], "R") || !strcmp(vtok[i], "D"))) {
+  while (i < vntok && (!strcmp(vtok[i], "R") || !strcmp(vtok[i], "D") || !strcmp(vtok[i], "U") ||
+                       !strcmp(vtok[i], "P") || !strcmp(vtok[i], "M"))) {
     size_t n;
+    if (!strcmp(vtok[i], "M")) {       /* M <n>: n resources by formula (see tools/gen_link.py many_ops) */
+      int cnt = atoi(vtok[i + 1]);
+      for (int k = 0; k < cnt; k++) {
+        char pb[32], vb[32];
+        coap_str_const_t path, name = { 2, (const uint8_t *)"rt" }, val;
+        coap_resource_t *r;
+        path.length = (size_t)snprintf(pb, sizeof(pb), "r/%d", (k * 7919) % 10007);
+        path.s = (const uint8_t *)pb;
+        r = coap_resource_init(&path, (k % 4 & 2) ? COAP_RESOURCE_FLAGS_OSCORE_ONLY : 0);
+        if (k % 3) {
+          val.length = (size_t)snprintf(vb, sizeof(vb), "\"t%d s\"", k % 5);
+          val.s = (const uint8_t *)vb;
+          coap_add_attr(r, &name, &val, 0);
+        }
+        if (k % 4 & 1) coap_resource_set_get_observable(r, 1);
+        coap_add_resource(ctx, r);
+        if (k % 17 == 5) {
+          coap_resource_t *dr;
+          path.length = (size_t)snprintf(pb, sizeof(pb), "r/%d", ((k - 3) * 7919) % 10007);
+          dr = coap_get_resource_from_uri_path(ctx, &path);
+          if (dr) coap_delete_resource(ctx, dr);
+        }
+      }
+      nres = 0;                        /* lk is not used with M */
+      i += 2;
+      continue;
+    }
+    if (!strcmp(vtok[i], "U")) {       /* the unknown-resource handler: registered, not listed */
+      coap_add_resource(ctx, coap_resource_unknown_init(hnd_dummy));
+      i += 1;
+      continue;
+    }
+    if (!strcmp(vtok[i], "P")) {       /* a proxy-URI resource: registered, not listed */
+      const char *names[] = { "proxy.example" };
+      coap_add_resource(ctx, coap_resource_proxy_uri_init(hnd_dummy, 1, names));
+      i += 1;
+      continue;
+    }
     if (!strcmp(vtok[i], "D")) {       /* D <path> : coap_delete_resource of the resource with that path */
       uint8_t *db = bytes_of_tok(vtok[i + 1], &n);
       coap_str_const_t dp = { n, db };
